@@ -9,7 +9,7 @@ TRUSTED = ["scripted oracle harness vf/tasks/t_sampling.py"]
 def units(tier):
     u = pyvc_units("C07", ["vf.contracts.c_emulator", "vf.contracts.c_heralding", "vf.contracts.c_state"])
     u += [dict(kind="func", mechanism="bounded runtime contract (C), scripted oracle", name=f"bounded:{w}", module="vf.tasks.t_sampling", func="unit", args=dict(which=w))
-          for w in ("detector", "sampler", "quick", "inputs", "seeds")]
+          for w in ("detector", "sampler", "quick", "inputs", "seeds", "single")]
     # sampling after reconfiguration (herald modes / photon numbers changed on a long-lived object): the returned states are those of a fresh object
     for k in range(3):
         u.append(dict(kind="func", mechanism="bounded runtime contract (C)", name=f"bounded:sampler-histories[{k}/3]", module="vf.tasks.t_history", func="unit",
